@@ -63,6 +63,7 @@ fn message(sc: &Script) -> CosmosMsg {
         6 => WasmMsg::ClearAdmin { contract_addr: sc.victim.clone() }.into(),
         7 => BankMsg::Send { to_address: sc.callee.clone(), amount: vec![coin(1, "x")] }.into(),
         8 => BankMsg::Burn { amount: vec![coin(1, "x")] }.into(),
+        10 => CosmosMsg::Any(cosmwasm_std::AnyMsg { type_url: "/emit.Msg".into(), value: Binary::from(b"any") }),
         _ => WasmMsg::Execute { contract_addr: sc.callee.clone(), msg: bin(3), funds: vec![] }.into(),
     }
 }
@@ -261,9 +262,80 @@ fn show_bin(b: &Binary) -> String {
     String::from_utf8_lossy(b.as_slice()).into_owned()
 }
 
+/// A user-supplied module (here: the stargate / any handler) answers with events of types the
+/// simulator itself uses or that look special (`message`, `transfer`, `wasm`, `reply`, `execute`,
+/// one letter, empty attribute list) and with data: the Reply of the dispatching contract carries
+/// exactly these events, in order, and exactly this data.
+struct EmitStargate;
+fn emitted_events() -> Vec<cosmwasm_std::Event> {
+    use cosmwasm_std::Event;
+    vec![
+        Event::new("message").add_attribute("module", "emit").add_attribute("sender", "someone"),
+        Event::new("transfer").add_attribute("amount", "1x"),
+        Event::new("wasm").add_attribute("_contract_address", "not-a-contract"),
+        Event::new("reply"),
+        Event::new("message").add_attribute("action", "second"),
+        Event::new("execute").add_attribute("k", ""),
+        Event::new("m"),
+    ]
+}
+impl cw_multi_test::Stargate for EmitStargate {
+    fn execute_any<ExecC, QueryC>(&self, _api: &dyn cosmwasm_std::Api, _storage: &mut dyn cosmwasm_std::Storage, _router: &dyn cw_multi_test::CosmosRouter<ExecC = ExecC, QueryC = QueryC>, _block: &cosmwasm_std::BlockInfo, _sender: Addr, _msg: cosmwasm_std::AnyMsg) -> cw_multi_test::error::AnyResult<cw_multi_test::AppResponse>
+    where
+        ExecC: cosmwasm_std::CustomMsg + serde::de::DeserializeOwned + 'static,
+        QueryC: cosmwasm_std::CustomQuery + serde::de::DeserializeOwned + 'static,
+    {
+        Ok(cw_multi_test::AppResponse { events: emitted_events(), data: Some(Binary::from(b"emit-data")) })
+    }
+}
+
+fn module_events_stage(ctx: &Ctx) -> u64 {
+    let api = MockApi::default();
+    let ua = api.addr_make("user");
+    let mut n = 0;
+    for mode in [1u8, 3] {
+        let mut app = AppBuilder::new().with_storage(SnapStorage::new()).with_stargate(EmitStargate).build(|router, _, storage| {
+            router.bank.init_balance(storage, &ua, vec![coin(100, "x")]).unwrap();
+        });
+        let code = app.store_code(with_reply());
+        let p = app.instantiate_contract(code, ua.clone(), &Empty {}, &[], "p", None).unwrap();
+        SCRIPT.with(|s| *s.borrow_mut() = Script { kind: 10, mode, ..Script::default() });
+        REPLIES.with(|r| r.borrow_mut().clear());
+        let cj = json!({"engine": "envelope", "stage": "module-events", "reply_on": (["never", "success", "error", "always"][mode as usize]), "mode": mode, "sub_message": "CosmosMsg::Any handled by a user-supplied module"});
+        let res = catch(|| app.execute_contract(ua.clone(), p.clone(), &EMsg { op: 0 }, &[]));
+        let replies = REPLIES.with(|r| std::mem::take(&mut *r.borrow_mut()));
+        n += 1;
+        match res {
+            Ok(Ok(_)) => {}
+            other => {
+                ctx.violation("c03:reply-envelope:transaction-failed", json!({"case": cj, "result": format!("{:?}", other.map(|r| r.map(|_| "Ok").map_err(|e| format!("{:#}", e))))}));
+                continue;
+            }
+        }
+        if replies.len() != 1 {
+            ctx.violation("c03:reply-envelope:not-exactly-one-reply-on-the-dispatcher", json!({"case": cj, "replies": replies.len()}));
+            continue;
+        }
+        match &replies[0].1.result {
+            SubMsgResult::Ok(resp) => {
+                #[allow(deprecated)]
+                let data = resp.data.clone();
+                if resp.events != emitted_events() {
+                    ctx.violation("c03:reply-envelope:events", json!({"case": cj, "events_in_reply": format!("{:?}", resp.events), "events_the_module_produced": format!("{:?}", emitted_events())}));
+                }
+                if data != Some(Binary::from(b"emit-data")) {
+                    ctx.violation("c03:reply-envelope:data", json!({"case": cj, "data": data.as_ref().map(show_bin), "expected": "emit-data"}));
+                }
+            }
+            SubMsgResult::Err(e) => ctx.violation("c03:reply-envelope:result-not-ok", json!({"case": cj, "error": e})),
+        }
+    }
+    n
+}
+
 pub fn reply_envelope_stage(ctx: &Ctx) -> u64 {
     let mut w = world();
-    let mut n = 0;
+    let mut n = module_events_stage(ctx);
     for kind in 0..9u8 {
         for mode in [1u8, 3] {
             for nested in [false, true] {
@@ -341,7 +413,9 @@ pub fn replay(ctx: &Ctx, c: &Value) {
     let mut w = world();
     let u = |k: &str| c[k].as_u64().unwrap_or(0) as u8;
     let b = |k: &str| c[k].as_bool().unwrap_or(false);
-    if c["stage"] == "reply-envelope" {
+    if c["stage"] == "module-events" {
+        module_events_stage(ctx);
+    } else if c["stage"] == "reply-envelope" {
         envelope_case(ctx, &mut w, u("kind"), u("mode"), b("dispatched_one_level_down"));
     } else {
         absorb_case(ctx, &mut w, u("mode"), b("dispatched_one_level_down"), u("outer_mode"), b("dispatcher_has_reply_entry_point"), b("reply_handler_fails"));
